@@ -32,6 +32,19 @@ NODE = ("class", "Node", [("val", "int"), ("tags", "[int...]"), ("next", "Self?"
          ("tag", [("t", "int")], None, [("if", ("bin", "<", M(SF("tags"), "len"), I(2)), [("expr", M(SF("tags"), "push", V("t")))], None)]),
          ("link", [("o", "Self")], None, [("setfield", V("self"), "next", V("o"))]),
          ("unlink", [], None, [("setfield", V("self"), "next", ("nil",))]),
+         # field stores inside nested control flow, with simple right-hand sides and binary conditions
+         ("clamp", [("lo", "int"), ("hi", "int")], None,
+          [("if", ("bin", "<", SF("val"), V("lo")), [("setfield", V("self"), "val", V("lo"))],
+            ("if", ("bin", ">", SF("val"), V("hi")), [("setfield", V("self"), "val", V("hi"))], None))]),
+         ("settle", [("v", "int")], None,
+          [("if", ("bin", ">=", SF("val"), I(0)), [("if", ("bin", "!=", SF("val"), V("v")), [("setfield", V("self"), "val", V("v"))], None)], None)]),
+         ("drain", [], None,
+          [("while", ("bin", ">", SF("val"), I(1)), [("if", ("bin", ">", SF("val"), I(2)), [("setfield", V("self"), "val", I(2))],
+                                                       [("setfield", V("self"), "val", I(1))])])]),
+         ("retag", [("t", "int")], None,
+          [("if", ("bin", ">", M(SF("tags"), "len"), I(0)),
+            [asg("tg", SF("tags")),
+             ("if", ("bin", "!=", ("index", V("tg"), I(0)), V("t")), [("setindex", V("tg"), I(0), V("t"))], None)], None)]),
          ("next_val", [], "int", [("if", ("bin", "==", SF("next"), ("nil",)), [("return", ("int", -1))], None),
                                   asg("nx", ("get", SF("next"))), ("return", F("nx", "val"))])])
 
@@ -64,7 +77,9 @@ TEMPLATES["graph"] = dict(
          ("print", F("a", "val")), ("print", F("c", "tags")), ("setfield", V("a"), "val", I(2)), ("setfield", V("c"), "val", I(0)),
          ("expr", M(F("a", "leaf"), "bump")), ("print", F(F("b", "leaf"), "n")), ("setfield", V("b"), "leaf", F("a", "leaf")),
          lambda k: [asg(f"lf{k}", F("c", "leaf")), ("expr", M(f"lf{k}", "bump"))],
-         ("print", ("is", V("a"), V("b"))), ("print", ("is", V("a"), V("c"))), ("print", ("is", V("b"), V("c")))],
+         ("print", ("is", V("a"), V("b"))), ("print", ("is", V("a"), V("c"))), ("print", ("is", V("b"), V("c"))),
+         ("expr", M("a", "clamp", I(1), I(2))), ("expr", M("c", "settle", I(3))), ("expr", M("b", "drain")), ("expr", M("a", "retag", I(2))),
+         lambda k: [("if", ("bin", ">=", F("a", "val"), I(0)), [("if", ("bin", "<", F("b", "val"), I(3)), [("setfield", V("a"), "val", F("b", "val"))], None)], None)]],
     observers=[F("a", "val"), F("b", "val"), F("c", "val"), ("is", V("a"), V("b")), ("is", V("a"), V("c")), ("is", V("b"), V("c")),
                F("a", "tags"), F("b", "tags"), F("c", "tags"), F(F("a", "leaf"), "n"), F(F("b", "leaf"), "n"), F(F("c", "leaf"), "n"),
                ("is", F("a", "leaf"), F("b", "leaf")), ("is", F("a", "leaf"), F("c", "leaf")),
